@@ -55,7 +55,8 @@ Proof.
     + cbn [pbind] in H. inversion H; subst ea. now rewrite (IHa sc eq_refl).
   - intros n a vs IHa sc H. cbn [run] in H. cbn [check].
     destruct (run a o) as [va|ea] eqn:Ea.
-    + cbn [pbind] in H. destruct (is_exp va); [discriminate|]. destruct (is_none va); discriminate.
+    + cbn [pbind] in H.
+      repeat match type of H with context [if ?x then _ else _] => destruct x end; discriminate.
     + cbn [pbind] in H. inversion H; subst ea. now apply IHa.
   - intros es IH sc H. rewrite run_and in H. cbn [check].
     revert H. generalize false at 1. induction IH as [|x es Hx IH IHes]; intros hn H.
@@ -87,38 +88,6 @@ Proof.
 Qed.
 
 (* ---------------------------------------------------------------------------------------- *)
-(** * evaluation only depends on the attributes an expression reads *)
-Lemma run_agree o1 o2 : forall e, (forall c, reads e c = true -> o1 c = o2 c) -> run e o1 = run e o2.
-Proof.
-  apply (ex_ind' (fun e => (forall c, reads e c = true -> o1 c = o2 c) -> run e o1 = run e o2)).
-  - intros c H. cbn [run]. rewrite (H c); [reflexivity|]. cbn [reads]. apply Nat.eqb_refl.
-  - reflexivity.
-  - reflexivity.
-  - reflexivity.
-  - reflexivity.
-  - intros o a b IHa IHb H. cbn [run]. rewrite IHa, IHb; [reflexivity| |];
-      intros c Hc; apply H; cbn [reads]; rewrite Hc; [apply orb_true_r|reflexivity].
-  - intros n a vs IHa H. cbn [run]. rewrite IHa; [reflexivity|]. exact H.
-  - intros es IH H. rewrite !run_and. generalize false.
-    induction IH as [|x es Hx IH IHes]; intros hn; [reflexivity|].
-    cbn [and_go]. rewrite Hx by (intros c Hc; apply H; cbn [reads]; now rewrite Hc).
-    destruct (run x o2) as [v|]; [|reflexivity]. cbn [pbind].
-    assert (Hes : forall c, reads (EAnd es) c = true -> o1 c = o2 c)
-      by (intros c Hc; apply H; cbn [reads] in *; rewrite Hc; apply orb_true_r).
-    now rewrite !(IHes Hes).
-  - intros es IH H. rewrite !run_or. generalize false.
-    induction IH as [|x es Hx IH IHes]; intros hn; [reflexivity|].
-    cbn [or_go]. rewrite Hx by (intros c Hc; apply H; cbn [reads]; now rewrite Hc).
-    destruct (run x o2) as [v|]; [|reflexivity]. cbn [pbind].
-    assert (Hes : forall c, reads (EOr es) c = true -> o1 c = o2 c)
-      by (intros c Hc; apply H; cbn [reads] in *; rewrite Hc; apply orb_true_r).
-    now rewrite !(IHes Hes).
-  - intros e IH H. cbn [run]. now rewrite IH.
-  - intros e IH H. cbn [run]. now apply IH.
-  - reflexivity.
-Qed.
-
-(* ---------------------------------------------------------------------------------------- *)
 (** * UPDATE *)
 Definition upd (r : row) (sets : list (nat * ex)) : row :=
   fun c => match find (fun cv => Nat.eqb (fst cv) c) sets with Some cv => sem (snd cv) r | None => r c end.
@@ -126,86 +95,72 @@ Definition upd (r : row) (sets : list (nat * ex)) : row :=
 Lemma update_row_upd crit sets r : update_row crit sets r = if selected crit r then upd r sets else r.
 Proof. reflexivity. Qed.
 
-Definition is_target (sets : list (nat * ex)) (c : nat) : bool := existsb (fun cv => Nat.eqb (fst cv) c) sets.
+Definition is_target {A} (l : list (nat * A)) (c : nat) : bool := existsb (fun cv => Nat.eqb (fst cv) c) l.
 
-Lemma upd_not_target r sets c : is_target sets c = false -> upd r sets c = r c.
+(* all right-hand sides are evaluated on the object as loaded from the row *)
+Lemma eval_sets_ok sc r : row_ok sc r -> forall sets, forallb (set_ok sc r) sets = true ->
+  eval_sets sc sets (obj_of r) = EvOk (map (fun cv => (fst cv, Loaded (sem (snd cv) r))) sets).
 Proof.
-  unfold upd, is_target. induction sets as [|cv sets IH]; intros H; [reflexivity|].
-  cbn [existsb find] in *. apply orb_false_iff in H as [H1 H2]. rewrite H1. now apply IH.
-Qed.
-Lemma upd_snoc r sets c v c' : is_target sets c = false ->
-  upd r (sets ++ [(c, v)]) c' = if Nat.eqb c c' then sem v r else upd r sets c'.
-Proof.
-  unfold upd, is_target. intros H. induction sets as [|cv sets IH].
-  - cbn [app find fst snd]. now destruct (Nat.eqb c c').
-  - cbn [app find existsb] in *. apply orb_false_iff in H as [H1 H2].
-    destruct (Nat.eqb (fst cv) c') eqn:E.
-    + apply Nat.eqb_eq in E. destruct (Nat.eqb c c') eqn:E2; [|reflexivity].
-      apply Nat.eqb_eq in E2. subst. rewrite Nat.eqb_refl in H1. discriminate.
-    + now apply IH.
+  intros Hrow. induction sets as [|[c v] sets IH]; intros Hs; [reflexivity|].
+  cbn [forallb] in Hs. apply andb_true_iff in Hs as [Hcv Hs].
+  unfold set_ok in Hcv. cbn [fst snd] in Hcv.
+  destruct (wt sc v) as [t|] eqn:Hw; [|discriminate].
+  apply andb_true_iff in Hcv as [_ Hg]. destruct (wt_check _ _ _ Hw) as [Hck Hw'].
+  cbn [eval_sets]. rewrite Hck. unfold obj_of at 1.
+  destruct (faithful sc r Hrow v t Hw' Hck Hg) as (x & Hx & Hrel & _).
+  rewrite Hx, (IH Hs), (rel_to_attr _ _ Hrel). reflexivity.
 Qed.
 
-Lemma targets_distinct_app done c v rest : targets_distinct (done ++ (c, v) :: rest) = true ->
-  is_target done c = false /\ targets_distinct ((done ++ [(c, v)]) ++ rest) = true.
+Lemma expire_none sc sets o : forallb (fun cv => check sc (snd cv)) sets = true -> expire_unevaluatable sc sets o = o.
 Proof.
-  intros H. split.
-  - induction done as [|[c0 v0] done IH]; [reflexivity|].
-    cbn [app targets_distinct] in H. apply andb_true_iff in H as [H1 H2].
-    unfold is_target. cbn [existsb fst]. apply orb_false_iff. split; [|exact (IH H2)].
-    apply negb_true_iff in H1. rewrite existsb_app in H1. apply orb_false_iff in H1 as [_ H1].
-    cbn [existsb fst] in H1. apply orb_false_iff in H1 as [H1 _]. now rewrite Nat.eqb_sym.
-  - now rewrite <- app_assoc.
+  unfold expire_unevaluatable. revert o. induction sets as [|cv sets IH]; intros o H; [reflexivity|].
+  cbn [forallb] in H. apply andb_true_iff in H as [H1 H2]. cbn [fold_left]. rewrite H1. now apply IH.
 Qed.
 
-Lemma apply_sets_ok sc r : row_ok sc r -> forall rest done o,
-  (forall c, o c = Loaded (upd r done c)) ->
-  targets_distinct (done ++ rest) = true ->
-  sets_independent (done ++ rest) = true ->
-  forallb (set_ok sc r) rest = true ->
-  exists o', apply_sets sc rest o = OOk o' /\ forall c, o' c = Loaded (upd r (done ++ rest) c).
+Lemma assign_find (l : list (nat * attr)) : forall o c,
+  (fix dist (l : list (nat * attr)) : bool :=
+     match l with [] => true | ca :: rest => negb (is_target rest (fst ca)) && dist rest end) l = true ->
+  assign o l c = match find (fun ca => Nat.eqb (fst ca) c) l with Some ca => snd ca | None => o c end.
 Proof.
-  intros Hrow. induction rest as [|[c v] rest IH]; intros done o Ho Hd Hi Hs.
-  - exists o. split; [reflexivity|]. now rewrite app_nil_r.
-  - cbn [forallb] in Hs. apply andb_true_iff in Hs as [Hcv Hs].
-    unfold set_ok in Hcv. cbn [fst snd] in Hcv.
-    destruct (wt sc v) as [t|] eqn:Hw; [|discriminate].
-    apply andb_true_iff in Hcv as [Hcv Hg]. apply andb_true_iff in Hcv as [Ht Hvt].
-    destruct (wt_check _ _ _ Hw) as [Hck Hw'].
-    destruct (targets_distinct_app done c v rest Hd) as [Hnt Hd'].
-    cbn [apply_sets]. rewrite Hck. rewrite (Ho c).
-    (* the right-hand side only reads attributes that still hold the row's values *)
-    assert (Hrun : run v o = run v (obj_of r)).
-    { apply run_agree. intros c' Hc'. rewrite (Ho c'). unfold obj_of. f_equal. apply upd_not_target.
-      destruct (is_target done c') eqn:E; [|reflexivity]. exfalso.
-      unfold is_target in E. apply existsb_exists in E as (cv' & Hin & Hc2). apply Nat.eqb_eq in Hc2.
-      unfold sets_independent in Hi. rewrite forallb_forall in Hi.
-      specialize (Hi (c, v) ltac:(apply in_or_app; right; now left)). rewrite forallb_forall in Hi.
-      specialize (Hi cv' ltac:(apply in_or_app; now left)). cbn [fst snd] in Hi.
-      rewrite Hc2, Hc' in Hi. cbn [negb] in Hi. rewrite orb_false_r in Hi. apply Nat.eqb_eq in Hi. subst c'.
-      unfold is_target in Hnt. assert (existsb (fun cv => Nat.eqb (fst cv) c) done = true).
-      { apply existsb_exists. exists cv'. split; [exact Hin|]. rewrite Hc2. apply Nat.eqb_refl. }
-      congruence. }
-    rewrite Hrun.
-    destruct (faithful sc r Hrow v t Hw' Hck Hg) as (x & Hx & Hrel & _).
-    rewrite Hx. rewrite (rel_to_attr _ _ Hrel).
-    destruct (IH (done ++ [(c, v)]) (set_attr o c (Loaded (sem v r)))) as (o' & Ho' & Hfin).
-    + intros c'. unfold set_attr. rewrite (upd_snoc r done c v c' Hnt). rewrite (Nat.eqb_sym c' c).
-      destruct (Nat.eqb c c'); [reflexivity|apply Ho].
-    + exact Hd'.
-    + now rewrite <- app_assoc.
-    + exact Hs.
-    + exists o'. split; [exact Ho'|]. intros c'. rewrite (Hfin c'). now rewrite <- app_assoc.
+  induction l as [|[c0 a0] l IH]; intros o c Hd; [reflexivity|].
+  apply andb_true_iff in Hd as [Hn Hd]. apply negb_true_iff in Hn. cbn [fst] in Hn.
+  unfold assign. cbn [fold_left fst snd]. fold (assign (set_attr o c0 a0) l). rewrite (IH _ c Hd).
+  cbn [find fst]. destruct (Nat.eqb c0 c) eqn:E.
+  - apply Nat.eqb_eq in E. subst c0.
+    replace (find (fun ca => Nat.eqb (fst ca) c) l) with (@None (nat * attr)).
+    + unfold set_attr. now rewrite Nat.eqb_refl.
+    + symmetry. unfold is_target in Hn. clear -Hn. induction l as [|x l IHl]; [reflexivity|].
+      cbn [existsb find] in *. apply orb_false_iff in Hn as [H1 H2]. rewrite H1. now apply IHl.
+  - destruct (find _ l); [reflexivity|]. unfold set_attr. rewrite Nat.eqb_sym, E. reflexivity.
+Qed.
+
+Lemma apply_sets_ok sc r sets : row_ok sc r -> targets_distinct sets = true -> forallb (set_ok sc r) sets = true ->
+  exists o', apply_sets sc sets (obj_of r) = OOk o' /\ forall c, o' c = Loaded (upd r sets c).
+Proof.
+  intros Hrow Hd Hs. unfold apply_sets. rewrite (eval_sets_ok sc r Hrow sets Hs).
+  eexists. split; [reflexivity|]. intros c.
+  rewrite expire_none.
+  - rewrite assign_find.
+    + unfold upd. clear. induction sets as [|[c0 v0] sets IH]; [reflexivity|].
+      cbn [map find fst snd]. destruct (Nat.eqb c0 c); [reflexivity|exact IH].
+    + clear -Hd. induction sets as [|[c0 v0] sets IH]; [reflexivity|].
+      cbn [targets_distinct] in Hd. apply andb_true_iff in Hd as [H1 H2].
+      cbn [map fst]. apply andb_true_iff. split; [|now apply IH].
+      rewrite <- H1. f_equal. unfold is_target. clear. induction sets as [|x l IHl]; [reflexivity|].
+      cbn [map existsb fst]. now rewrite IHl.
+  - apply forallb_forall. intros cv Hin. rewrite forallb_forall in Hs. specialize (Hs cv Hin).
+    unfold set_ok in Hs. destruct (wt sc (snd cv)) eqn:Hw; [|discriminate]. now destruct (wt_check _ _ _ Hw).
 Qed.
 
 Theorem update_in_sync sc crit sets r :
   row_ok sc r -> wt sc crit = Some TyBool -> guard crit r = true ->
-  targets_distinct sets = true -> sets_independent sets = true -> forallb (set_ok sc r) sets = true ->
+  targets_distinct sets = true -> forallb (set_ok sc r) sets = true ->
   exists o', update_obj sc crit sets (obj_of r) = OOk o' /\
              forall c, o' c = obj_of (update_row crit sets r) c.
 Proof.
-  intros Hrow Hw Hg Hd Hi Hs. unfold update_obj. rewrite (matched_iff_selected sc crit r Hw Hrow Hg).
+  intros Hrow Hw Hg Hd Hs. unfold update_obj. rewrite (matched_iff_selected sc crit r Hw Hrow Hg).
   rewrite update_row_upd. destruct (selected crit r).
-  - destruct (apply_sets_ok sc r Hrow sets [] (obj_of r) (fun c => eq_refl) Hd Hi Hs) as (o' & Ho' & Hfin).
+  - destruct (apply_sets_ok sc r sets Hrow Hd Hs) as (o' & Ho' & Hfin).
     exists o'. split; [exact Ho'|]. intros c. now rewrite (Hfin c).
   - exists (obj_of r). split; reflexivity.
 Qed.
